@@ -4,11 +4,13 @@
 -/
 import Chrono.Proofs.ParsedL
 import Chrono.Proofs.DateL
+import Chrono.Spec.ParsedResolveSpec
 namespace Chrono.Proofs.ParsedRes
 open Chrono Chrono.M Chrono.Spec Chrono.Spec.Fields Chrono.Extracted
 
-/-- an existing day of a year of the supported range -/
-def VD (y : Int) (o : Nat) : Prop := MIN_YEAR ≤ y ∧ y ≤ MAX_YEAR ∧ 1 ≤ o ∧ o ≤ yearLen y
+/- `VD`, `UsesCalendar`, `UsesIso`, `NaiveOk` are statement-level predicates: defined in
+Spec/ParsedResolveSpec.lean (`Chrono.Spec.Fields`), re-exported here under their old names -/
+export Chrono.Spec.Fields (VD UsesCalendar UsesIso NaiveOk)
 
 theorem ordinal_bounds (y : Int) (m d : Nat) (h : validYmd y m d = true) :
     1 ≤ ordinalOf y m d ∧ ordinalOf y m d ≤ yearLen y := by
@@ -523,12 +525,6 @@ theorem checks_ok (p : Parsed) (Y : Int) (o : Nat) (hp : InType p) (h : VD Y o) 
   rw [Bool.and_eq_true, Bool.and_eq_true, i1, i2, i3, and_assoc]
 
 
-/-- a calendar (non-ISO) combination is present: year group with a year, plus month and day, or
-ordinal, or a Sunday- or Monday-based week number with a weekday -/
-def UsesCalendar (p : Parsed) : Prop :=
-  GroupHasYear p.year p.year_mod_100 ∧
-    ((p.month ≠ none ∧ p.day ≠ none) ∨ p.ordinal ≠ none ∨
-     (p.week_from_sun ≠ none ∧ p.weekday ≠ none) ∨ (p.week_from_mon ≠ none ∧ p.weekday ≠ none))
 
 theorem dateArm_not_iso (p : Parsed) (gy gi : Option Int)
     (h : gy ≠ none ∧ ((p.month ≠ none ∧ p.day ≠ none) ∨ p.ordinal ≠ none ∨
